@@ -15,7 +15,7 @@ from . import common, corpus
 from .common import call
 
 PROP = 'C08'
-LEVEL = 'exploration'
+LEVEL = 'fault_enumeration'
 DEATH_IS_VIOLATION = True
 RULE = ('cases = hostile byte strings: every single-byte replacement of '
         'grammar-valid seed frames (sampled replacement values in quick, all '
